@@ -92,7 +92,8 @@ func (t *tr) closure(fl *ast.FuncLit) string {
 }
 
 // ifCommaOk:  if v, ok := f(..); ok { body }   (f a call with two plain results, no else)
-//   ->  let (v, ok) := f ..; if ok then body else rest
+//
+//	->  let (v, ok) := f ..; if ok then body else rest
 func (t *tr) ifCommaOk(x *ast.IfStmt, cont cont) (string, bool) {
 	as, ok := x.Init.(*ast.AssignStmt)
 	if !ok || as.Tok != token.DEFINE || len(as.Lhs) != 2 || len(as.Rhs) != 1 || x.Else != nil {
